@@ -7,8 +7,8 @@ import (
 
 func init() {
 	fw.Register(&fw.Check{
-		ID: "C01",
-		Rule: "cases: operation histories executed step by step through the real parser + composer + applier (all eight patch actions, both hash algorithms, signing keys Ed25519/P-256/P-384/secp256k1). Systematic part: for each template (cuud, crud, cururd, cuuuuurd, cud, cd) x every position x every failure class of that position's operation type (" + "≈45 labelled classes: wrong state, unknown type, malformed/missing members, reveal/signature/header/algorithm/curve/nonce violations, delta unbound/missing/invalid in 8 ways, out-of-window in 3 ways, inapplicable patches, commitment rule violations, suffix mismatch) exactly that step is invalidated; random part: histories of length 1..8 with each step invalid with probability 0.3. Anchoring metadata and the incoming operation lists are drawn independently per step. Oracle: harness state machine folded over the generator's labels + harness patch model; every field of the returned state is compared. distinct = distinct (outcome sequence, key type) signatures.",
+		ID:          "C01",
+		Rule:        "cases: operation histories executed step by step through the real parser + composer + applier (all eight patch actions, both hash algorithms, signing keys Ed25519/P-256/P-384/secp256k1). Systematic part: for each template (cuud, crud, cururd, cuuuuurd, cud, cd) x every position x every failure class of that position's operation type (" + "≈45 labelled classes: wrong state, unknown type, malformed/missing members, reveal/signature/header/algorithm/curve/nonce violations, delta unbound/missing/invalid in 8 ways, out-of-window in 3 ways, inapplicable patches, commitment rule violations, suffix mismatch) exactly that step is invalidated; random part: histories of length 1..8 with each step invalid with probability 0.3. Anchoring metadata and the incoming operation lists are drawn independently per step. Oracle: harness state machine folded over the generator's labels + harness patch model; every field of the returned state is compared. distinct = distinct (outcome sequence, key type) signatures.",
 		Assumptions: []string{"harness state machine written from the property statement", "harness patch model (validated against the composer by C10)", "Go crypto for signing"},
 		Require:     []string{"steps", "outcome:applied", "outcome:refused:parse", "outcome:refused:signature", "outcome:degraded:out-of-window", "outcome:degraded:delta-not-bound", "outcome:degraded:patches-inapplicable", "outcome:refused:create-on-existing"},
 		Workers:     func(string) int { return 15 },
